@@ -86,7 +86,11 @@ func vhC20GossipTargets() {
 	if want > 8 {
 		want = 8
 	}
-	vsAssert(len(targets) == want, "all-eligible-up-to-eight")
+	// the four closest covered nodes are always targets; the others are "up to four"
+	vsAssert(len(targets) >= min(4, n) && len(targets) <= want, "four-closest-plus-up-to-four-others")
+	if len(targets) == want {
+		vsCover("all-eligible-up-to-eight")
+	}
 	used := make([]bool, k)
 	for ti, t := range targets {
 		ix := -1
@@ -101,9 +105,10 @@ func vhC20GossipTargets() {
 		vsAssert(covers[ix], "only-nodes-whose-radius-covers-the-content")
 		vsAssert(!used[ix], "no-target-twice")
 		used[ix] = true
-		if ti < 4 {
-			vsAssert(ix == eligible[ti], "first-four-are-the-nearest-covered-in-order")
-		}
+		_ = ti
+	}
+	for q := 0; q < min(4, n); q++ {
+		vsAssert(used[eligible[q]], "the-four-nearest-covered-nodes-are-targets")
 	}
 	if n > 4 {
 		vsCover("more-than-four-covered")
@@ -130,7 +135,7 @@ func vmShuffleAny(r *reseedingRandom, n int, swap func(i, j int)) {
 //verif:harness C20.gossip_many unwind=80 timeout=60
 //verif:use offerenv tablenodes logdist
 //verif:model (*github.com/zen-eth/shisui/portalwire.reseedingRandom).Shuffle = vmShuffleAny
-//verif:param K=10/14
+//verif:param K=13/15
 func vhC20GossipMany() {
 	st := &vmStorage{radius: uint256.NewInt(0).SetAllOne()}
 	p := vhOfferProto(16, protocolVersions{1}, st)
@@ -167,7 +172,7 @@ func vhC20GossipMany() {
 			eligible = append(eligible, i)
 		}
 	}
-	vsAssert(len(targets) == min(8, len(eligible)), "all-eligible-up-to-eight")
+	vsAssert(len(targets) >= min(4, len(eligible)) && len(targets) <= min(8, len(eligible)), "four-closest-plus-up-to-four-others")
 	used := make([]bool, k)
 	for ti, t := range targets {
 		ix := -1
@@ -180,9 +185,10 @@ func vhC20GossipMany() {
 		vsAssert(ix != srcIdx, "never-back-to-the-source")
 		vsAssert(!used[ix], "no-target-twice")
 		used[ix] = true
-		if ti < 4 {
-			vsAssert(ix == eligible[ti], "first-four-are-the-nearest-covered-in-order")
-		}
+		_ = ti
+	}
+	for q := 0; q < min(4, len(eligible)); q++ {
+		vsAssert(used[eligible[q]], "the-four-nearest-covered-nodes-are-targets")
 	}
 	if len(eligible) > 8 {
 		vsCover("more-than-eight-covered")
